@@ -1,4 +1,9 @@
 """C01 — GJK distance query (Jolt flavour) on polytope pairs."""
+import itertools
+import random
+
+from symx.harness import Scenario, AND, OR, DOT, SUB, ADD, SCALE, CROSS, NORM2, ABS, close, vec_eq
+
 from . import gjk_common as GC
 
 FUNCTIONS = ["distance3d.gjk.gjk_distance_jolt (= gjk.gjk = gjk.gjk_distance)", "_distance_loop", "get_closest_point_to_origin",
@@ -14,9 +19,133 @@ WALL_BUDGET = {"quick": 300, "thorough": 600}
 EXPECTED_EXCEPTIONS = ()
 
 
+class ClosestPointsUnit(Scenario):
+    """One step of the reconstruction `calculate_closest_points(Y, P, Q, n)` from an ARBITRARY final simplex
+    (the unit, not the GJK run that produced it): n-1 vertices of Y = P - Q on the {-1,0,1}^3 lattice, the last on a
+    line (parameter t) - either through lattice points or through two of the other vertices, which makes the
+    simplex exactly degenerate for every t.  The near-degenerate band 0 < |Y0Y1 x Y0Y2|^2 < 1e-6 (resp. volume) is
+    assumed away: there the fallback is an approximation whose error only the GJK invariant bounds."""
+    prop = "C01"
+    timeout_ms = 8000
+    budget_s = 40
+    max_decisions = 300
+    params = [("t", -3.0, 3.0)]
+
+    def __init__(self, args):
+        self.args = args
+
+    def _pts(self, P):
+        a = self.args
+        Y = [list(p) for p in a["base"]]
+        Y.insert(a["pos"], ADD(a["p0"], SCALE(P["t"], a["u"])))
+        return Y
+
+    def assume(self, cx):
+        Y = self._pts(cx.P)
+        if len(Y) == 3:
+            den = NORM2(CROSS(SUB(Y[1], Y[0]), SUB(Y[2], Y[0])))
+            return [OR(den == 0, den >= 1e-6)]
+        if len(Y) == 4:
+            vol = DOT(SUB(Y[1], Y[0]), CROSS(SUB(Y[2], Y[0]), SUB(Y[3], Y[0])))
+            return [OR(vol >= 1e-3, vol <= -1e-3)]
+        den = NORM2(SUB(Y[1], Y[0]))
+        return [OR(den == 0, den >= 1e-6)]
+
+    @staticmethod
+    def _float_image_in_domain(Y):
+        """The assumption of assume(), evaluated literally on the floats the compiled code actually received (the code's
+        own denominator d00*d11-d01^2 carries round-off of the order eps*d00*d11, so in the band either branch may be taken)."""
+        Y = [[float(x) for x in p] for p in Y]
+        if len(Y) == 3:
+            den = float(NORM2(CROSS(SUB(Y[1], Y[0]), SUB(Y[2], Y[0]))))
+            return not (0.0 < den < 1e-6)
+        if len(Y) == 4:
+            return abs(float(DOT(SUB(Y[1], Y[0]), CROSS(SUB(Y[2], Y[0]), SUB(Y[3], Y[0]))))) >= 1e-3
+        den = float(NORM2(SUB(Y[1], Y[0])))
+        return not (0.0 < den < 1e-6)
+
+    def build(self, cx):
+        Y = self._pts(cx.P)
+        Q = [list(q) for q in self.args["Q"]][:len(Y)]
+        Pp = [ADD(y, q) for y, q in zip(Y, Q)]
+        return {"Y": Y, "P": Pp, "Q": Q}
+
+    def call(self, cx, inp):
+        import distance3d.gjk._gjk_jolt as J
+        n = len(inp["Y"])
+        pad = [[0.0, 0.0, 0.0]] * (4 - n)
+        Y, P, Q = cx.arr(inp["Y"] + pad), cx.arr(inp["P"] + pad), cx.arr(inp["Q"] + pad)
+        a, b = J.calculate_closest_points(Y, P, Q, n)
+        if n == 2:
+            lam = list(J.get_barycentric_coordinates_line(Y[0], Y[1]))
+        elif n == 3:
+            lam = list(J.get_barycentric_coordinates_plane(Y[0], Y[1], Y[2]))
+        else:
+            lam = list(J.get_barycentric_coordinates_tetrahedron(Y[0], Y[1], Y[2], Y[3]))
+        return [list(a), list(b), lam]
+
+    def check(self, cx, inp, out, ob):
+        a, b, lam = out
+        Y, P, Q = inp["Y"], inp["P"], inp["Q"]
+        n = len(Y)
+        if not cx.symbolic and not self._float_image_in_domain(Y):
+            return      # the float image of an exact witness left the assumed set (near-degenerate band, see class docstring)
+        scale2 = 1.0
+        for p in Y + Q:
+            scale2 = scale2 + NORM2(p)
+        tol = 1e-9 * scale2
+        sm = 0.0
+        ca, cb = [0.0, 0.0, 0.0], [0.0, 0.0, 0.0]
+        for l, p, q in zip(lam, P, Q):
+            sm = sm + l
+            ca = ADD(ca, SCALE(l, p))
+            cb = ADD(cb, SCALE(l, q))
+        ob.require("weights_sum_1", exact=(sm == 1.0), tol=close(sm, 1.0, 1e-9))
+        # a and b are the SAME affine combination of the pre-images (so a is in aff(P), b in aff(Q), a - b in aff(Y))
+        ob.require("a_is_combination_of_P", exact=vec_eq(a, ca), tol=AND(*[close(x, y, tol) for x, y in zip(a, ca)]))
+        ob.require("b_is_combination_of_Q", exact=vec_eq(b, cb), tol=AND(*[close(x, y, tol) for x, y in zip(b, cb)]))
+        y = SUB(a, b)
+        if n == 4:
+            ob.require("difference_is_origin", exact=vec_eq(y, [0.0, 0.0, 0.0]), tol=(NORM2(y) <= tol))
+            return
+        # a - b is the minimum-norm point of the affine hull of Y: orthogonal to every edge.  For an exactly
+        # degenerate simplex the edges are parallel and the condition is that of the line they span.  Two coincident
+        # points (n = 2) have no edge: the result must then be that point.
+        edges = [SUB(Y[i], Y[0]) for i in range(1, n)]
+        if n == 3:
+            edges.append(SUB(Y[2], Y[1]))
+        ob.require("difference_orthogonal_to_hull", exact=AND(*[DOT(y, e) == 0 for e in edges]),
+                   tol=AND(*[ABS(DOT(y, e)) <= tol for e in edges]))
+
+
 def make(family, args):
+    if family.startswith("closest_points_unit"):
+        return ClosestPointsUnit(args)
     return GC.JoltDistance("C01", args)
 
 
+def unit_jobs(tier, seed):
+    rnd = random.Random(4100 + seed)
+    LAT = list(itertools.product([-1.0, 0.0, 1.0], repeat=3))
+    DIRS = [d for d in LAT if any(d)]
+    J = []
+    m = 40 if tier == "quick" else 400
+    for n in (2, 3, 4):
+        for kind in (("line", "degenerate") if n == 3 else ("line",)):
+            for _ in range(m if n == 3 else max(3, m // 3)):
+                base = [list(rnd.choice(LAT)) for _ in range(n - 1)]
+                pos = rnd.randrange(n)
+                if kind == "degenerate":
+                    if base[0] == base[1]:
+                        continue
+                    p0, u = base[0], list(SUB(base[1], base[0]))
+                else:
+                    p0, u = list(rnd.choice(LAT)), list(rnd.choice(DIRS))
+                Q = [list(rnd.choice(LAT)) for _ in range(4)]
+                J.append({"family": "closest_points_unit_n%d_%s" % (n, kind),
+                          "args": {"base": base, "p0": p0, "u": u, "pos": pos, "Q": Q}})
+    return J
+
+
 def jobs(tier, seed):
-    return GC.pair_jobs(tier, seed)
+    return GC.pair_jobs(tier, seed) + unit_jobs(tier, seed)
